@@ -2,8 +2,14 @@ package main
 
 // Level rx: the post-handshake receive paths of a real DTLCP connection.
 //
-// case:  lvl=rx path=readfrom|read suite=gcm|cbc role=server|client cfg=<Config.ReplayWindow>
-//        sent=<k> [repoch=<n>] script=<item>,<item>,...
+// case:  lvl=rx path=readfrom|read|mix suite=gcm|cbc role=server|client cfg=<Config.ReplayWindow>
+//        sent=<k> [repoch=<n>] [skip=<j>.<n>,...] [plen=<L>] script=<item>,<item>,...
+//
+// skip=<j>.<n>: before protecting record j the sender moves its write sequence number to n (a
+// hook; a sender may skip ahead), so record i carries n + (i - j) for the last skip point j <= i
+// and i without one: sequence numbers on both sides of every byte boundary of the 48-bit field.
+// plen=<L>: payload i has L + i%7 bytes (default 5): the byte i, then bytes in 201..255 that
+// depend on i and on the position (sent <= 200).
 //
 // repoch=<n>: before the script a hook sets the receiver's read epoch to n (the peer keeps
 // sending in epoch 1), so that authentic records meet the "older epoch" (n=2) and "newer
@@ -12,7 +18,8 @@ package main
 // A real handshake is run over an in-memory datagram pipe. The sending side then protects k
 // application records (payload i = "P" + 4-byte i, sequence numbers 1..k in epoch 1) and a
 // close_notify alert (sequence number k+1); none of them reaches the receiver by itself.
-// The script says which datagrams the network delivers, one at a time:
+// The script says which datagrams the network delivers and which calls the receiving
+// application makes:
 //
 //	g<i>      record i as sent                                   (q = the close_notify record)
 //	f<i>      record i with the last byte (tag / MAC / padding) flipped
@@ -24,14 +31,21 @@ package main
 //	o<i>      record i with the length field set to 0xffff
 //	z         a 5-byte datagram
 //	a<i>      record i as sent but from another source address
+//	+<item>   the same datagram, but the application does not call (it stays queued)
+//	R<n>      no datagram; the application calls Read with an n-byte buffer
+//	F<n>      no datagram; the application calls ReadFrom with an n-byte buffer
 //
-// After each delivery the receiving application calls ReadFrom / Read once with an expired
-// deadline; the observation is what the call returned and the replay state after it:
+// After each delivery without '+' the receiving application calls ReadFrom (path=readfrom) /
+// Read (path=read) once with a 64 KiB buffer; with path=mix only R / F items call. Every call
+// has an expired deadline; the observation is what each call returned and the replay state
+// and the number of decrypted bytes kept for the next Read after it:
 //
-//	init=<epoch>:<right>:<bitmap>:<size> hdrs=1.1-<k+1> (or the list <epoch>.<seq>,... when not consecutive) steps=<out>:<epoch>:<right>:<bitmap>|... inerr=none|eof|fatal
-//	out = d<i> (payload i handed over) | T (timeout, nothing) | EOF | ERR
+//	init=<epoch>:<right>:<bitmap>:<size> hdrs=1.<a>-<b>[,1.<a>-<b>...] (runs of consecutive sequence numbers; the list <epoch>.<seq>,... when an epoch is not 1) steps=<out>:<epoch>:<right>:<bitmap>:<pending>|... inerr=none|eof|fatal
+//	out = d<i> (exactly payload i handed over) | x<hex> (other bytes, x- for none) | T (timeout, nothing) | EOF | ERR
+//	      a call that returned bytes together with an error: <bytes>!T | <bytes>!EOF | <bytes>!ERR
 
 import (
+	"bytes"
 	"encoding/binary"
 	"errors"
 	"fmt"
@@ -49,18 +63,30 @@ import (
 // consecutive failed handshakes (a tree that cannot handshake is reported, not waited for)
 var handshakeFailures int
 
-func payloadOf(i int) []byte {
-	b := make([]byte, 5+i%7)
-	b[0] = 'P'
-	binary.BigEndian.PutUint32(b[1:], uint32(i))
+// payloadOf is the content of application record i (1..200) for base length L (plen=):
+// L + i%7 bytes; the first byte is i, every other byte lies in 201..255 and depends on i and on
+// the position — so any non-empty run of bytes a call returns tells whether it starts a record,
+// and which.
+func payloadOf(i, L int) []byte {
+	b := make([]byte, L+i%7)
+	for j := range b {
+		b[j] = byte(201 + (i*7+j*13)%55)
+	}
+	b[0] = byte(i)
 	return b
 }
 
-func payloadID(b []byte) string {
-	if len(b) >= 5 && b[0] == 'P' {
-		return "d" + strconv.Itoa(int(binary.BigEndian.Uint32(b[1:5])))
+// bytesID names what a call handed over: d<i> when it is exactly payload i, the bytes otherwise.
+func bytesID(b []byte, k, L int) string {
+	if len(b) >= 1 {
+		if i := int(b[0]); i >= 1 && i <= k && bytes.Equal(b, payloadOf(i, L)) {
+			return "d" + strconv.Itoa(i)
+		}
 	}
-	return "d?" + hx.Hex(b)
+	if len(b) == 0 {
+		return "x-"
+	}
+	return "x" + hx.Hex(b)
 }
 
 func stateStr(c *dtlcp.Conn, withSize bool) string {
@@ -71,7 +97,29 @@ func stateStr(c *dtlcp.Conn, withSize bool) string {
 	if withSize {
 		return fmt.Sprintf("%d:%d:%016x:%d", ep, right, bm, size)
 	}
-	return fmt.Sprintf("%d:%d:%016x", ep, right, bm)
+	return fmt.Sprintf("%d:%d:%016x:%d", ep, right, bm, dtlcp.VerifConnPendingRead(c))
+}
+
+// parseSkips reads skip=<j>.<n>,... (record index -> sequence number the sender moves to)
+func parseSkips(desc string) map[int]uint64 {
+	out := map[int]uint64{}
+	v, ok := hx.KV(desc, "skip")
+	if !ok || v == "-" {
+		return out
+	}
+	for _, part := range strings.Split(v, ",") {
+		jn := strings.SplitN(part, ".", 2)
+		if len(jn) != 2 {
+			panic("bad skip " + part)
+		}
+		j, err1 := strconv.Atoi(jn[0])
+		n, err2 := strconv.ParseUint(jn[1], 10, 64)
+		if err1 != nil || err2 != nil || j < 1 || n >= 1<<48 {
+			panic("bad skip " + part)
+		}
+		out[j] = n
+	}
+	return out
 }
 
 func executeRx(desc string) string {
@@ -130,19 +178,40 @@ func executeRx(desc string) string {
 		dtlcp.VerifConnSetReadEpoch(rcv, uint16(e))
 	}
 	init := stateStr(rcv, true)
+	L := 5
+	if _, ok := hx.KV(desc, "plen"); ok {
+		L = hx.KVInt(desc, "plen")
+	}
+	if L < 1 || k > 200 {
+		panic("plen must be positive and sent at most 200")
+	}
+	skips := parseSkips(desc)
 
 	for i := 1; i <= k; i++ {
-		if _, err := snd.WriteTo(payloadOf(i), re.LocalAddr()); err != nil {
+		if n, ok := skips[i]; ok {
+			dtlcp.VerifConnSetWriteSeq(snd, n)
+		}
+		if _, err := snd.WriteTo(payloadOf(i, L), re.LocalAddr()); err != nil {
 			return "write=failed:" + strings.ReplaceAll(err.Error(), " ", "_")
 		}
+	}
+	if n, ok := skips[k+1]; ok {
+		dtlcp.VerifConnSetWriteSeq(snd, n)
 	}
 	snd.CloseWrite()
 	if len(captured) != k+1 {
 		return fmt.Sprintf("captured=%d", len(captured))
 	}
-	var hdrs []string
-	consecutive := true
-	for i, d := range captured {
+	// headers of what the sender protected: runs of consecutive sequence numbers in epoch 1
+	var hdrs, runs []string
+	allEpoch1 := true
+	var runFrom, runTo uint64
+	flush := func() {
+		if len(hdrs) > 0 {
+			runs = append(runs, fmt.Sprintf("1.%d-%d", runFrom, runTo))
+		}
+	}
+	for _, d := range captured {
 		if len(d) < 13 {
 			return "captured=short"
 		}
@@ -151,47 +220,78 @@ func executeRx(desc string) string {
 		if 13+int(binary.BigEndian.Uint16(d[11:13])) != len(d) {
 			return "captured=not-one-record"
 		}
-		hdrs = append(hdrs, fmt.Sprintf("%d.%d", ep, seq))
-		if ep != 1 || seq != uint64(i+1) {
-			consecutive = false
+		if ep != 1 {
+			allEpoch1 = false
 		}
+		if len(hdrs) > 0 && seq == runTo+1 {
+			runTo = seq
+		} else {
+			flush()
+			runFrom, runTo = seq, seq
+		}
+		hdrs = append(hdrs, fmt.Sprintf("%d.%d", ep, seq))
 	}
-	hdrStr := strings.Join(hdrs, ",")
-	if consecutive { // the usual case, kept short: epoch 1, sequence numbers 1..k+1
-		hdrStr = fmt.Sprintf("1.1-%d", len(captured))
+	flush()
+	hdrStr := strings.Join(runs, ",")
+	if !allEpoch1 {
+		hdrStr = strings.Join(hdrs, ",")
 	}
 
 	from := sndEnd.LocalAddr()
 	other := &net.UDPAddr{IP: net.IPv4(10, 9, 8, 7), Port: 4444}
-	buf := make([]byte, 65536)
 	var steps []string
+	call := func(stream bool, size int) {
+		buf := make([]byte, size)
+		var n int
+		var err error
+		if stream {
+			n, err = rcv.Read(buf)
+		} else {
+			n, _, err = rcv.ReadFrom(buf)
+		}
+		var out string
+		var ne net.Error
+		switch {
+		case err == nil:
+		case err == io.EOF:
+			out = "EOF"
+		case errors.As(err, &ne) && ne.Timeout():
+			out = "T"
+		default:
+			out = "ERR"
+		}
+		if err == nil {
+			out = bytesID(buf[:n], k, L)
+		} else if n > 0 {
+			out = bytesID(buf[:n], k, L) + "!" + out
+		}
+		steps = append(steps, out+":"+stateStr(rcv, false))
+	}
 	if script != "-" && script != "" {
 		for _, it := range strings.Split(script, ",") {
+			if it == "" {
+				panic("empty script item")
+			}
+			if it[0] == 'R' || it[0] == 'F' {
+				size, err := strconv.Atoi(it[1:])
+				if err != nil || size < 0 || size > 1<<20 || (it[0] == 'R' && size == 0) {
+					panic("bad script item " + it)
+				}
+				call(it[0] == 'R', size)
+				continue
+			}
+			queued := it[0] == '+'
+			if queued {
+				it = it[1:]
+			}
 			data, src := buildItem(it, captured, k), from
 			if it[0] == 'a' {
 				src = other
 			}
 			re.Deliver(data, src)
-			var n int
-			var err error
-			if path == "read" {
-				n, err = rcv.Read(buf)
-			} else {
-				n, _, err = rcv.ReadFrom(buf)
+			if !queued && path != "mix" {
+				call(path == "read", 65536)
 			}
-			var out string
-			var ne net.Error
-			switch {
-			case err == nil:
-				out = payloadID(buf[:n])
-			case err == io.EOF:
-				out = "EOF"
-			case errors.As(err, &ne) && ne.Timeout():
-				out = "T"
-			default:
-				out = "ERR"
-			}
-			steps = append(steps, out+":"+stateStr(rcv, false))
 		}
 	}
 	inerr := "none"
@@ -210,6 +310,9 @@ func executeRx(desc string) string {
 // buildItem returns the bytes of one script item (record indices are 1-based; q / index k+1
 // is the close_notify record).
 func buildItem(it string, captured [][]byte, k int) []byte {
+	if it == "" {
+		panic("empty script item")
+	}
 	if it == "z" {
 		return []byte{23, 1, 1, 0, 1}
 	}
@@ -350,13 +453,123 @@ func genRx(o hx.Opts, emit func(string)) {
 		}
 	})
 
-	// 4. random scripts
+	// 3b. long bursts of datagrams that do not authenticate between genuine records
+	combos(func(path, suite, role string) {
+		if o.Tier != "thorough" && ((suite == "cbc") != (role == "client")) {
+			return
+		}
+		for _, nb := range []int{15, 16, 17, 18, 33, 70, 150} {
+			var sc []string
+			sc = append(sc, "g1")
+			for j := 0; j < nb; j++ {
+				sc = append(sc, "f2")
+			}
+			sc = append(sc, "g2", "g1")
+			for j := 0; j < nb; j++ {
+				sc = append(sc, forged(r, forgeKinds[j%len(forgeKinds)], 3, 4))
+			}
+			sc = append(sc, "g3", "g2")
+			for j := 0; j < nb; j++ {
+				sc = append(sc, "c4")
+			}
+			sc = append(sc, "g4", "q")
+			line(path, suite, role, 64, 4, sc)
+			if path == "read" { // the same bursts waiting in the socket, consumed by few calls of either kind
+				var mx []string
+				mx = append(mx, "+g1", "R2")
+				for j := 0; j < nb; j++ {
+					mx = append(mx, "+"+forged(r, forgeKinds[j%len(forgeKinds)], 2, 4))
+				}
+				mx = append(mx, "+g2", "F65536", "R65536")
+				for j := 0; j < nb; j++ {
+					mx = append(mx, "+f3")
+				}
+				mx = append(mx, "R65536", "+g3", "R3", "F9", "R65536", "R65536")
+				emit(fmt.Sprintf("lvl=rx path=mix suite=%s role=%s cfg=64 sent=4 plen=9 script=%s", suite, role, strings.Join(mx, ",")))
+			}
+		}
+	})
+
+	// 4. sequence numbers on both sides of every byte boundary of the 48-bit field: the sender
+	// skips ahead (hook), the receiver follows by accepting what arrives
+	lineX := func(path, suite, role string, cfg, k int, extra string, script []string) {
+		emit(fmt.Sprintf("lvl=rx path=%s suite=%s role=%s cfg=%d sent=%d %s script=%s", path, suite, role, cfg, k, extra, strings.Join(script, ",")))
+	}
+	bounds := []uint64{1 << 8, 1 << 16, 1 << 24, 1 << 32, 1 << 40}
+	combos(func(path, suite, role string) {
+		if o.Tier != "thorough" && path == "read" && ((suite == "gcm") != (role == "client")) {
+			return
+		}
+		for _, b := range bounds {
+			// across the boundary in order, a replay from each side, close_notify beyond it
+			lineX(path, suite, role, 64, 6, fmt.Sprintf("skip=1.%d", b-3), []string{"g1", "g2", "g3", "g4", "g5", "g6", "g2", "g5", "f4", "q"})
+			// the jump happens in mid-stream; old small numbers afterwards
+			lineX(path, suite, role, 0, 6, fmt.Sprintf("skip=4.%d", b-1), []string{"g1", "g2", "g4", "g5", "g3", "g6", "g5", "g4", "s1.7", "g1"})
+			// reordered around the boundary
+			lineX(path, suite, role, 64, 6, fmt.Sprintf("skip=1.%d", b-3), []string{"g5", "g3", "g4", "g2", "f3", "g6", "g1", "g4", "g5", "q", "g3"})
+			// the window edge just beyond the boundary, old numbers at the window's far end below it
+			lineX(path, suite, role, 64, 80, fmt.Sprintf("skip=1.%d", b-60), []string{"g71", "g8", "g7", "g61", "g60", "g62", "g8", "g61", "g72", "g9", "g8"})
+			lineX(path, suite, role, 128, 80, fmt.Sprintf("skip=1.%d", b-60), []string{"g1", "g71", "g8", "g7", "g61", "g60", "g8", "g60"})
+			// a long way beyond, then back
+			lineX(path, suite, role, 64, 6, fmt.Sprintf("skip=3.%d,5.%d", b+1000, 2*b+5), []string{"g1", "g3", "g2", "g4", "g5", "g3", "g6", "g4"})
+		}
+		top := uint64(1)<<48 - 1
+		lineX(path, suite, role, 64, 6, fmt.Sprintf("skip=1.%d", top-6), []string{"g1", "g2", "g3", "g4", "g5", "g6", "g2", "q", "q", "g6"})
+		lineX(path, suite, role, 0, 6, fmt.Sprintf("skip=3.%d", top-4), []string{"g1", "g2", "g6", "g4", "g3", "g5", "f5", "g6", "g4", "q", "g2"})
+		lineX(path, suite, role, 32, 70, fmt.Sprintf("skip=1.%d", top-70), []string{"g70", "g7", "g6", "g38", "g39", "g7", "g69", "q", "g40"})
+	})
+
+	// 5. both read APIs on one connection, caller buffers of every relation to the record length
+	mix := func(suite, role string, cfg, k, plen int, script []string) {
+		lineX("mix", suite, role, cfg, k, fmt.Sprintf("plen=%d", plen), script)
+	}
+	R := func(n int) string { return fmt.Sprintf("R%d", n) }
+	F := func(n int) string { return fmt.Sprintf("F%d", n) }
+	for _, suite := range []string{"gcm", "cbc"} {
+		for _, role := range []string{"server", "client"} {
+			for _, plen := range []int{5, 20, 96, 300} {
+				l1 := plen + 1 // length of payload 1
+				for _, n1 := range []int{1, 4, l1 - 1, l1, l1 + 1} {
+					for _, n2 := range []int{65536, 3} {
+						// part of record 1 by Read, record 2 by ReadFrom, the rest of record 1 by Read
+						mix(suite, role, 64, 3, plen, []string{"+g1", R(n1), "+g2", F(n2), R(65536), "+g3", R(7), F(9), R(65536), R(2)})
+					}
+				}
+				// a byte stream over record boundaries
+				mix(suite, role, 64, 3, plen, []string{"+g1", "+g2", "+g3", R(7), R(7), R(7), R(7), R(plen), R(7), R(65536), R(65536), R(1)})
+				// what does not fit a ReadFrom buffer is gone, not kept for Read
+				mix(suite, role, 64, 3, plen, []string{"+g1", "+g2", F(3), R(65536), R(65536), "+g3", "+g1", F(0), F(5), R(4)})
+				// forgeries and replays between the calls
+				mix(suite, role, 64, 3, plen, []string{"+g1", R(4), "+f2", "+g1", F(100), R(65536), "+g2", "+g2", "+c3", F(100), F(100), R(5), "+g3", R(2), "+s1.9", F(8), R(65536)})
+				// close_notify between / behind partial reads (Read looks ahead for an alert)
+				mix(suite, role, 64, 2, plen, []string{"+g1", "+q", R(7), F(100), R(65536), "+g2", R(65536), R(65536)})
+				mix(suite, role, 64, 2, plen, []string{"+g1", R(3), "+q", R(65536), R(65536), "+g2", F(10), R(10)})
+				mix(suite, role, 64, 2, plen, []string{"+g1", R(3), "+f3", F(50), R(65536), "+g2", R(65536), "+q", R(9)})
+				mix(suite, role, 64, 2, plen, []string{"+g1", R(3), "+q", F(50), "+g2", R(65536), R(3), F(1), R(65536)})
+			}
+			// every sequence of four calls over three queued records and the close_notify
+			if o.Tier != "thorough" && ((suite == "gcm") != (role == "server")) {
+				continue
+			}
+			kinds := []string{R(2), R(9), R(65536), F(4), F(65536)}
+			for a := 0; a < len(kinds)*len(kinds)*len(kinds)*len(kinds); a++ {
+				c1, c2, c3, c4 := kinds[a%5], kinds[a/5%5], kinds[a/25%5], kinds[a/125%5]
+				if a%2 == 0 {
+					mix(suite, role, 64, 3, 8, []string{"+g1", "+g2", "+g3", "+q", c1, c2, c3, c4, R(65536), F(65536)})
+				} else {
+					mix(suite, role, 64, 3, 8, []string{"+g1", c1, "+g2", c2, "+f2", "+g3", c3, "+q", c4, R(65536), F(65536)})
+				}
+			}
+		}
+	}
+
+	// 6. random scripts
 	n := 1200 * o.Scale
 	if o.Tier == "thorough" {
 		n = 40000 * o.Scale
 	}
 	for i := 0; i < n; i++ {
-		path := hx.Pick(r, []string{"readfrom", "read"})
+		path := hx.Pick(r, []string{"readfrom", "read", "mix"})
 		suite := hx.Pick(r, []string{"gcm", "cbc"})
 		role := hx.Pick(r, []string{"server", "client"})
 		cfg := hx.Pick(r, []int{0, 0, 16, 32, 33, 48, 64, 64, 65, 100, 128, 160})
@@ -365,25 +578,83 @@ func genRx(o hx.Opts, emit func(string)) {
 			k = 100 + r.Intn(100)
 		}
 		ln := 10 + r.Intn(50)
+		extra := ""
+		if r.Chance(30) { // the sender skips ahead once or twice, to the neighbourhood of a byte boundary
+			j1 := 1 + r.Intn(k)
+			b := hx.Pick(r, []uint64{1 << 8, 1 << 16, 1 << 24, 1 << 32, 1 << 32, 1 << 40, 1<<48 - 400})
+			n1 := b + uint64(r.Intn(k))
+			if back := uint64(r.Intn(2 * k)); back < n1 {
+				n1 -= back
+			}
+			if n1 < uint64(j1)+1 {
+				n1 = uint64(j1) + 1
+			}
+			extra = fmt.Sprintf("skip=%d.%d", j1, n1)
+			if r.Chance(30) && j1 < k {
+				j2 := j1 + 1 + r.Intn(k-j1)
+				extra += fmt.Sprintf(",%d.%d", j2, n1+uint64(j2-j1)+uint64(hx.Pick(r, []int{1, 31, 63, 64, 65, 1000, 1 << 20, 1 << 33})))
+			}
+			if n1+uint64(k)+(1<<34) >= 1<<48 {
+				extra = fmt.Sprintf("skip=%d.%d", j1, n1) // stay inside the 48 bits
+			}
+		}
 		var sc []string
 		cur := 1 + r.Intn(k)
-		for j := 0; j < ln; j++ {
+		item := func(j int) string {
 			switch x := r.Intn(100); {
 			case x < 40: // next ones, roughly in order
 				cur = min(k, cur+1+r.Intn(2))
-				sc = append(sc, fmt.Sprintf("g%d", cur))
+				return fmt.Sprintf("g%d", cur)
 			case x < 60: // an older one (maybe a replay)
-				sc = append(sc, fmt.Sprintf("g%d", max(1, cur-r.Intn(140))))
+				return fmt.Sprintf("g%d", max(1, cur-r.Intn(140)))
 			case x < 70 && len(sc) > 0: // exact replay of something delivered before
-				sc = append(sc, sc[r.Intn(len(sc))])
+				prev := sc[r.Intn(len(sc))]
+				if prev[0] != 'R' && prev[0] != 'F' {
+					return strings.TrimPrefix(prev, "+")
+				}
+				return fmt.Sprintf("g%d", cur)
 			case x < 73:
 				cur = min(k, cur+hx.Pick(r, []int{31, 32, 33, 63, 64, 65, 100}))
-				sc = append(sc, fmt.Sprintf("g%d", cur))
+				return fmt.Sprintf("g%d", cur)
 			case x < 75 && j > ln/2:
-				sc = append(sc, "q")
+				return "q"
 			default:
-				sc = append(sc, forged(r, hx.Pick(r, forgeKinds), 1+r.Intn(k), k))
+				return forged(r, hx.Pick(r, forgeKinds), 1+r.Intn(k), k)
 			}
+		}
+		burst := func(pfx string) { // now and then a long run of forgeries
+			if r.Chance(3) {
+				kind := hx.Pick(r, forgeKinds)
+				for b := 10 + r.Intn(40); b > 0; b-- {
+					sc = append(sc, pfx+forged(r, kind, 1+r.Intn(k), k))
+				}
+			}
+		}
+		if path != "mix" {
+			for j := 0; j < ln; j++ {
+				sc = append(sc, item(j))
+				burst("")
+			}
+		} else {
+			extra = strings.TrimSpace(extra + fmt.Sprintf(" plen=%d", hx.Pick(r, []int{5, 5, 12, 40, 200})))
+			sizes := []int{1, 2, 3, 5, 7, 16, 64, 65536, 65536}
+			for j := 0; j < ln; j++ {
+				switch x := r.Intn(100); {
+				case x < 50:
+					sc = append(sc, "+"+item(j))
+					burst("+")
+				case x < 78:
+					sc = append(sc, R(hx.Pick(r, sizes)))
+				default:
+					sc = append(sc, F(hx.Pick(r, sizes)))
+				}
+			}
+			// drain what is left
+			sc = append(sc, R(65536), F(65536), R(65536))
+		}
+		if extra != "" {
+			lineX(path, suite, role, cfg, k, extra, sc)
+			continue
 		}
 		line(path, suite, role, cfg, k, sc)
 	}
